@@ -68,6 +68,29 @@ PROPS["C17"] = dict(
     technique="deterministic simulation: seeded controlled scheduler over the real code, interval oracle plus porcupine linearizability check of the recorded history",
 )
 
+PROPS["C10"] = dict(
+    engine="primsim", level="exploration",
+    quick=dict(runs=64000, workers=16),
+    thorough=dict(budget_s=600, workers=16),
+    rule="one evaluation = (1) one seeded schedule of 2-4 tasks issuing ReservePort (specific and ephemeral), ReleasePort and IsPortAvailable over "
+         "{IPv4,IPv6,both} x {TCP,UDP} x {wildcard,a,b} x 4 ports on one PortManager with schedule points before each lock and between check and insert, "
+         "checked for linearizability against a sequential reservation-set model, plus (2) 2-12 PickEphemeralPort calls whose tester accepts one or two ports "
+         "anywhere in [16000,65535] and whose starting offset is supplied by the simulator (boundary offsets 0, 16000+-1, 49534/5, uniform, and offsets whose "
+         "search crosses 65536); non-trivial = the lock was contended or a probe's search crossed 65536; distinct = distinct hash of schedule and results",
+    expected_probes=["lock_contended", "probe_offset_crosses_65536", "ephemeral_reserve"],
+    real=["protocol/ports/ports.go"],
+    stubs=PRIM_STUBS + ["math/rand draw of the ephemeral search offset: supplied by the simulator through the verif seam",
+                        "sync.RWMutex blocking: a task about to acquire the manager's lock parks until a TryLock probe succeeds"],
+    assumptions=PRIM_ASSUME + ["socket-level Bind/Connect/Close paths that use the port manager are exercised by the netsim checks (C09, C11), not here"],
+    hang_is_violation=True,
+    level_text="seeded exploration: concurrent reserve/release/availability histories checked with porcupine against a sequential model carrying the statement's "
+               "conflict rule; the ephemeral search checked directly for every sampled (starting offset, acceptable port set); evidence, not proof",
+    level_note="the model treats an ephemeral reservation's returned port as nondeterministic (any free port in range is legal) and its failure as illegal, "
+               "since a few operations can never exhaust 49536 ports; histories are at most 60 operations",
+    technique="deterministic simulation: seeded controlled scheduler over the real PortManager, porcupine linearizability check of the recorded history, "
+              "simulator-chosen starting offsets for the ephemeral search",
+)
+
 PENDING = "check not built yet (work in progress; will be claimed once its simulation exists)"
 NOT_APPLICABLE = {
     "C15": "pure functions of their input (header codecs, RFC 1071 checksum): no schedule, clock, fault, I/O or second party for a simulator to control; "
